@@ -43,7 +43,8 @@ func LinearAttempt(ctx context.Context, rate time.Duration, count int) <-chan ti
 		close(c)
 		return c
 	}
-	c <- time.Now()
+	last := time.Now()
+	c <- last
 	count--
 	if count <= 0 {
 		close(c)
@@ -64,8 +65,13 @@ func LinearAttempt(ctx context.Context, rate time.Duration, count int) <-chan ti
 				// guarantee at most one tick after context cancel
 				return
 			}
+			if t.Before(last) {
+				// a ticker's values are not monotonic (each carries the delay its own send suffered)
+				t = last
+			}
 			select {
 			case c <- t:
+				last = t
 				i++
 			default:
 				// slow consumer, retry send next tick
